@@ -34,7 +34,7 @@ def ver_job(prefix, seq, nfunc=1, code=None, sym_offset=False, tier='quick'):
     nm = '%s_verify_%s_f%d%s' % (prefix, '-'.join(names) or 'empty', nfunc, '_symoff' if sym_offset else '')
     return Job(name=nm, harness='verifier_h.c', sources=['src/nanoisa/verifier.c', 'src/nanoisa/isa.c', 'src/nanoisa/nvm_format.c'],
                defines=d, unwind=d['CODE'] + 3, unwindset=['isa_decode.0:5'], flags=['--max-field-sensitivity-array-size', '64'],
-               timeout=600 if tier == 'thorough' else 240, group='verifier',
+               timeout=1200, group='verifier',
                desc={'function0_instructions': seq, 'functions': nfunc, 'code_bytes': d['CODE'],
                      'symbolic': 'all operand bytes, trailing bytes, code_length/local_count/upvalue_count/name_idx of each function, string/import counts, entry/flags'
                                  + (', code_offset (code all NOP)' if sym_offset else '')})
